@@ -121,7 +121,7 @@ def declsOfAnon (env : Env) : Ty → List (String × TsDecl)
   | .arr n e =>
     declsOfAnon env e ++
     (if n ≥ 0 then
-      [(goTypeString (.arr n e), .alias (refName env (.arr n e)) none (.tuple (List.replicate n.toNat (refTy env e))))]
+      [("__array_" ++ refName env (.arr n e), .alias (refName env (.arr n e)) none (.tuple (List.replicate n.toNat (refTy env e))))]
      else [])
   | .map k e => declsOfAnon env k ++ declsOfAnon env e
   | .ptr _ => []
